@@ -32,6 +32,8 @@ type lockRig struct {
 	useDumb bool
 	dumb    z80.DumbMemory
 	prev    z80.CPU
+	alt     z80.CPU // every other Step executes on this copy (another address than r.cpu)
+	flip    bool
 	afterEI bool // previous Step executed EI
 	parked  bool // previous Step executed HALT (CPU is parked on it)
 	known   map[string]bool
@@ -192,7 +194,18 @@ func (r *lockRig) step() lockStep {
 
 	// emulator
 	l0 := atomic.LoadInt64(&logLines)
-	pan := eng.SafeStep(&r.cpu)
+	// every other Step runs on a struct copy living at another address, the original being scribbled over
+	r.flip = !r.flip
+	var pan any
+	if r.flip {
+		r.alt = r.cpu
+		r.cpu.States = z80.States{}
+		pan = eng.SafeStep(&r.alt)
+		r.cpu = r.alt
+		r.alt.States = z80.States{}
+	} else {
+		pan = eng.SafeStep(&r.cpu)
+	}
 	o.logged = atomic.LoadInt64(&logLines) != l0
 	got := eng.FromCPU(&r.cpu)
 
